@@ -212,6 +212,21 @@ def metamorphic(rng, m, text, full, res):
         return dict(kind="spec", what="the instantiation for one argument tuple depends on the other requested instantiations",
                           input=text, input_singleton=t1, tuple_index=k,
                           **streams.first_diff(blocks_full[k], b1[0] if b1 else "<none>"))
+    # (a') the same at the level of the generated Python module: every class and enum statement generated when the tuple is
+    # requested alone is generated, verbatim, when it is requested together with the others
+    from props import c15
+    from common import impl_pybind
+    pf, p1 = impl_pybind(text, streams.TPL_MIN, "m", [''], False, [], None), impl_pybind(t1, streams.TPL_MIN, "m", [''], False, [], None)
+    res["kinds"].append("singleton_pybind")
+    if pf[0] == "ok" and p1[0] == "ok":
+        fullset = set(c15.class_blocks(pf[1])) | set(c15.class_blocks(pf[1], r'py::enum_<'))
+        for blk in c15.class_blocks(p1[1]) + c15.class_blocks(p1[1], r'py::enum_<'):
+            if blk not in fullset:
+                return dict(kind="spec", what="the binding of one instantiation (classes, nested enums) depends on the other requested instantiations",
+                            input=text, input_singleton=t1, tuple_index=k, statement=blk[:400])
+    elif pf[0] != p1[0]:
+        return dict(kind="spec", what="generation succeeds for one argument tuple alone but not together with the others (or vice versa)",
+                    input=text, input_singleton=t1, full=str(pf)[:200], single=str(p1)[:200])
     # (b) reversed lists
     m2 = copy.deepcopy(m)
     cls2 = next(c for _, _, c in find_templates(m2) if c.name == cls.name)
